@@ -108,8 +108,14 @@ For a general description of dotted items (items) and ℇ-moves of items, see:
 */
 func (this *Item) Emoves() (items []*Item) {
 	newItems := util.NewStack(8).Push(this)
+	// An item is processed once: a bracket whose body can be empty leads back to itself.
+	done := make(map[string]bool)
 	for newItems.Len() > 0 {
 		item := newItems.Pop().(*Item)
+		if done[item.hashKey] {
+			continue
+		}
+		done[item.hashKey] = true
 
 		if item.Reduce() || item.nextIsTerminal() {
 			items = append(items, item)
